@@ -254,8 +254,8 @@ func checkSides(rc *RC, h *HS, f c04Fault, pr c04Probe, cancelStep int, cancelTi
 			}
 		}
 		if probe {
-			if h.kind == "volfail" || h.kind == "volparse" {
-				continue // the failing voluntary feature is evaluated by c4 above; the receiver waits for the next selection
+			if h.kind == "volfail" || h.kind == "volparse" || h.kind == "listfail" {
+				continue // the failing feature is evaluated by c4 above; the other side waits for what never comes
 			}
 			if !x.done || x.err != nil {
 				rc.Infraf("fault-free %s handshake: %s done=%v err=%v stuck=%v", h.kind, role, x.done, x.err, rc.S.Stuck())
